@@ -1,3 +1,91 @@
-(* C04 -- theorems are added below as they are proved (see design-notes/C04.md). *)
+(* C04 -- Frame rule: processing and building agree with the specification.
+   Statements only; proofs in proofs/AbftIds.v AbftFrame.v AbftBuild.v AbftWitness.v (AbftOld.v for
+   the refutation of the pinned sampler).  "fcp v s a b" is the vector index' forkless-cause answer;
+   its equality with the graph definition (spec/FcSpec.v fc_spec) is C05 (worker vecidx) and is NOT
+   assumed here: every statement below is about the index' own answers. *)
 From Coq Require Import NArith List.
-From LV Require Import model.Abft model.AbftRun spec.AbftSpec.
+From LV Require Import model.VecIndex model.Abft model.AbftRun
+  proofs.AbftIds proofs.AbftFrame proofs.AbftBuild proofs.AbftWitness proofs.AbftOld.
+Import ListNotations.
+Local Open Scope N_scope.
+
+(* the repaired temporary-id sampler never repeats: different build counters, different event ids *)
+Theorem C04_sample_injective : forall c1 c2 t, sample c1 = Some t -> sample c2 = Some t -> c1 = c2.
+Proof. exact sample_inj. Qed.
+Theorem C04_temp_ids_distinct : forall e1 l1 c1 t1 e2 l2 c2 t2,
+  sample c1 = Some t1 -> sample c2 = Some t2 -> mk_id_bytes e1 l1 t1 = mk_id_bytes e2 l2 t2 -> c1 = c2.
+Proof. exact temp_id_inj. Qed.
+
+(* Process: with coherent cached answers for the event, the call ends with ErrWrongFrame, no block and an
+   unchanged state (up to the cache) when the claimed frame differs from the pure frame computation, and
+   otherwise goes on to root registration and the election *)
+Theorem C04_process_frame_check : forall cap end_block es st e s' spf fr,
+  add (l_idx st) (vev (l_vals st) e) = Some s' ->
+  cache_ok (a_id e) (set_idx st s') ->
+  frame_pure es (l_vals st) s' (l_roots st) e true = Ok (spf, fr) ->
+  exists c',
+    (a_frame e <> fr -> process cap end_block es st e = (Err EWrongFrame, [], set_fcc st c')) /\
+    (a_frame e = fr -> process cap end_block es st e = after_check cap end_block es (set_fcc (set_idx st s') c') e spf fr).
+Proof. exact process_frame_check. Qed.
+
+(* ... and the claimed frame passes exactly when it is allowed by the frame rule: 1 without a self-parent,
+   otherwise >= the self-parent's frame with a quorum of forkless-causing roots at every frame in between *)
+Theorem C04_process_iff_allowed : forall es v s roots e spf fr,
+  frame_pure es v s roots e true = Ok (spf, fr) ->
+  (forall r, In r roots -> r_frame r <> 0) ->
+  (a_self_parent e <> None -> 1 <= spf) ->
+  (a_frame e = fr <-> allowed_pure v s roots e spf (a_frame e)).
+Proof. exact frame_check_iff_allowed. Qed.
+
+(* the model's fuel is never exhausted by the frame loop *)
+Theorem C04_frame_fuel_enough : forall es v s roots e co, frame_pure es v s roots e co <> Err EFuel.
+Proof. exact frame_pure_not_fuel. Qed.
+
+(* Build: the highest allowed frame, at most 100 above the self-parent's *)
+Theorem C04_build_highest : forall es v s roots e spf fr,
+  frame_pure es v s roots e false = Ok (spf, fr) ->
+  (forall r, In r roots -> r_frame r <> 0) ->
+  (a_self_parent e <> None -> 1 <= spf) ->
+  allowed_pure v s roots e spf fr /\
+  (a_self_parent e <> None -> fr = spf + 100 \/ qp v s roots (a_id e) fr = false).
+Proof. exact build_frame_highest. Qed.
+
+(* ... no matter which events were built before: after ANY history of Builds the result is the pure
+   computation on the flushed state; only the counter (the temporary id) remembers the history.
+   [real] = ids of processed events, none of which is a temporary id of a counter <= bound. *)
+Theorem C04_build_any_history : forall cap (real : N -> Prop) bound,
+  (forall a, real a -> ~ is_temp bound a) ->
+  forall es st hist e, keys_inv real st -> l_ctr st + N.of_nat (length hist) + 1 <= bound ->
+  fst (build cap es (builds cap es st hist) e) =
+  build_pure es (l_vals st) (l_idx st) (l_roots st) (l_epoch st) (l_ctr st + N.of_nat (length hist) + 1) e.
+Proof. exact build_any_history. Qed.
+
+(* built then processed is accepted (the index answering alike for the temporary and the final id) *)
+Theorem C04_built_then_processed : forall es v s1 s2 roots e1 e2 spf fr,
+  frame_pure es v s1 roots e1 false = Ok (spf, fr) ->
+  a_self_parent e2 = a_self_parent e1 -> a_frame e2 = fr ->
+  (forall g, qp v s2 roots (a_id e2) g = qp v s1 roots (a_id e1) g) ->
+  (forall r, In r roots -> r_frame r <> 0) ->
+  (a_self_parent e1 <> None -> 1 <= spf) ->
+  exists fr', frame_pure es v s2 roots e2 true = Ok (spf, fr') /\ a_frame e2 = fr'.
+Proof. exact built_then_processed. Qed.
+
+(* non-vacuity: the hypotheses of C04_build_any_history hold on a concrete state with six processed
+   events (ids with tail byte 0x80, as the harness draws them) and counters below 2^191, and the
+   theorem's conclusion there is "frame 2 after 255 earlier builds" *)
+Example C04_hypotheses_satisfiable :
+  keys_inv w_real w_state /\ (forall a, w_real a -> ~ is_temp w_bound a) /\
+  l_ctr w_state + N.of_nat (length (x12 :: repeat cheap 254)) + 1 <= w_bound /\
+  fst (build 200 (i_es w_inst) (builds 200 (i_es w_inst) w_state (x12 :: repeat cheap 254)) x123) = Ok 2.
+Proof.
+  split; [exact w_keys_inv|]. split; [exact w_real_not_temp|]. split; [vm_compute; discriminate|exact w_build_after_history].
+Qed.
+
+Print Assumptions C04_sample_injective.
+Print Assumptions C04_temp_ids_distinct.
+Print Assumptions C04_process_frame_check.
+Print Assumptions C04_process_iff_allowed.
+Print Assumptions C04_frame_fuel_enough.
+Print Assumptions C04_build_highest.
+Print Assumptions C04_build_any_history.
+Print Assumptions C04_built_then_processed.
